@@ -96,6 +96,11 @@ func runRecv(class string, st *stream, script []rop, nt bool) {
 				ec = 9
 			}
 			a, w, nf, cl, bl := v.State()
+			if st.oracle && fin && w != st.fin()+1 {
+				// finProcessed drives the close handshake: it may be reported only when the FIN (frame first+n) and
+				// everything before it has been consumed in order (c08_fin_processed_only_after_all_bytes)
+				fail("C08:fin-processed-before-all-frames-consumed", fmt.Sprintf("receive(frame %d) reported finProcessed with windowStart=%d; the stream ends with the FIN at %d", o.no, w, st.fin()))
+			}
 			coq = append(coq, fmt.Sprintf("R %d %s %s %s", o.no, hv.Hex(o.data), hv.B(o.ack), hv.B(o.fin)))
 			obs = append(obs, hv.List([]string{hx.B2N(fin), hv.Ni(ec), hv.N(a), hv.N(w), hv.Ni(nf), hx.B2N(cl), hv.Ni(bl)}))
 			fl := ""
